@@ -12,7 +12,9 @@ klass('MAB',
       views=[('arms', '_imp.arms'), ('_rng', '_imp.rng')],
       inv=['INV(self._imp)~soft~pop',
            '[C08,mab.contextual] self.is_contextual == %s' % CONTEXTUAL,
-           '[C08,mab.fitted] (not self._is_initial_fit) or fitted(self._imp)'])
+           '[C08,mab.fitted] (not self._is_initial_fit) or fitted(self._imp)',
+           # C14: only a neighbourhood policy converts rewards ahead of its learning policy
+           '[C14,mab.ts] (not isinstance(self._imp, _ThompsonSampling)) or not self._imp.is_contextual_binarized'])
 
 ARM_OK = 'not arm_is_none(arm) and not arm_is_nan(arm) and not arm_is_inf(arm)'
 fn('mab.MAB.add_arm', props='C08 C14 C17 C18', public=True,
@@ -27,3 +29,131 @@ fn('mab.MAB.remove_arm', props='C08 C17 C18', public=True,
    requires=['INV', 'slen(self.arms) > 1'], raises='*',
    modifies=['self.arms[*]', 'self._imp.**'],
    ensures=['INV', '[C08,arms] self.arms == removed(old(self.arms), arm)', '[C08,was] old(mem(self.arms, arm))'])
+
+# ------------------------------------------------------------------------- containers (C18) and validation (C17)
+AL_D = 'arraylike:A'
+AL_R = 'arraylike:R'
+AL_X = 'arraylike:M'
+ACCEPTED_1D = '(al_is_list(%s) or al_is_ndarray(%s) or al_is_series(%s))'
+
+
+def converted_kind(run, env):
+    v = env['array_like']
+    return {'A': 'aseq', 'R': 'rseq', 'M': 'mat'}[v.what.split(':')[1]] if hasattr(v, 'what') and ':' in v.what else 'aseq'
+
+
+fn('mab.MAB._convert_array', props='C18', pure=True, functional=True, reads=[],
+   params={'array_like': AL_D},
+   raises=['NotImplementedError'], raises_iff='not ' + ACCEPTED_1D % (('array_like',) * 3),
+   # C18: whatever the container (list, ndarray, Series), the implementor receives an ndarray with the same elements
+   ensures=['[C18,same.elements] content_of(result) == content_of(array_like)'], result=converted_kind)
+
+ACCEPTED_2D = '(al_is_ndarray(contexts) or al_is_list(contexts) or al_is_dataframe(contexts) or al_is_series(contexts))'
+IS_LIN_LP = ('(isinstance(self._imp, _Linear) or ((isinstance(self._imp, _Radius) or isinstance(self._imp, _KNearest)) and '
+             'isinstance(self._imp.lp, _Linear)))')
+NUMF = ('(slen(val(self._imp.arm_to_model, at(self.arms, 0), "beta")) if isinstance(self._imp, _Linear) else '
+        'cols(self._imp.contexts))')
+SERIES_AS_COLUMN = '((slen(decisions) > 1) if not is_none(decisions) else (%s == 1))' % NUMF
+
+
+def ctx_kind(run, env):
+    from pyvc.values import NoneV
+    return 'none' if isinstance(env['contexts'], NoneV) else 'mat'
+
+
+fn('mab.MAB.__convert_context', props='C18', pure=True,
+   params={'contexts': 'opt:arraylike:M', 'decisions': 'opt:aseq'},
+   requires=['INV', 'slen(self.arms) > 0',
+             # predict-time disambiguation of a Series reads the fitted model
+             'is_none(contexts) or not al_is_series(contexts) or not is_none(decisions) or (self._is_initial_fit and '
+             'self.is_contextual)'],
+   raises=['NotImplementedError'], raises_iff='not is_none(contexts) and not ' + ACCEPTED_2D,
+   modifies=[], result=ctx_kind,
+   # C18: every accepted container yields the same C-ordered matrix; a Series is a column of single-feature rows or one row
+   ensures=['[C18,none] is_none(result) == is_none(contexts)',
+            '[C18,same.elements] is_none(contexts) or al_is_series(contexts) or matrix_of(result) == matrix_of(contexts)',
+            '[C18,series] is_none(contexts) or not al_is_series(contexts) or matrix_of(result) == '
+            '(as_column(reals_of(contexts)) if %s else as_row(reals_of(contexts)))' % SERIES_AS_COLUMN])
+
+# ----------------------------------------------------------------------------------------- training
+MAB_FIT = {'decisions': AL_D, 'rewards': AL_R, 'contexts': 'opt:arraylike:M'}
+NONEMPTY = 'slen(content_of(decisions)) >= 1'      # training on an empty batch is outside the statements
+WIDTH_OK = ('is_none(contexts) or (cols(matrix_of(contexts)) >= 1 if not al_is_series(contexts) else '
+            'slen(reals_of(contexts)) >= 1)')
+fn('mab.MAB.fit', props='C06 C07 C08 C17 C18', public=True,
+   params=MAB_FIT,
+   requires=['INV', 'slen(self.arms) > 0', WIDTH_OK, NONEMPTY],
+   raises='*',
+   modifies=['self._imp.**', 'self._is_initial_fit'],
+   # C17: every rejection happens before the first write;  C18: the implementor is given the converted arrays only
+   ensures=['INV', '[C07,C08,fitted] self._is_initial_fit'])
+fn('mab.MAB.partial_fit', props='C06 C08 C17 C18', public=True,
+   params=MAB_FIT,
+   requires=['INV', 'slen(self.arms) > 0', WIDTH_OK, NONEMPTY],
+   raises='*',
+   modifies=['self._imp.**', 'self._is_initial_fit'],
+   # C06: the first partial_fit of an unfitted bandit is a fit
+   ensures=['INV', '[C06,C08,fitted] self._is_initial_fit'])
+
+OK1D = lambda v: ACCEPTED_1D % ((v,) * 3)     # noqa: E731
+CTX_TYPE_OK = ('((al_is_ndarray(contexts) and al_ndim(contexts) == 2) or (al_is_list(contexts) and al_ndim(contexts) == 2) or '
+               '((not al_is_ndarray(contexts)) and (not al_is_list(contexts)) and (al_is_series(contexts) or '
+               'al_is_dataframe(contexts))))')
+LEN_OK = ('(al_len(decisions) == al_len(contexts) or (al_len(decisions) == 1 and al_is_series(contexts)))')
+IS_TS_NOBIN = ('((isinstance(self._imp, _ThompsonSampling) and is_none(self._imp.binarizer)) or '
+               '((isinstance(self._imp, _Radius) or isinstance(self._imp, _KNearest)) and '
+               'isinstance(self._imp.lp, _ThompsonSampling) and is_none(self._imp.lp.binarizer)))')
+VALID_FIT = ('(%s and %s and ((%s and self.is_contextual and %s) if not is_none(contexts) else (not self.is_contextual)) and '
+             'al_len(decisions) == al_len(rewards) and ((not %s) or binary(reals_of(rewards))))'
+             % (OK1D('decisions'), OK1D('rewards'), CTX_TYPE_OK, LEN_OK, IS_TS_NOBIN))
+fn('mab.MAB._validate_fit_args', props='C17 C18', pure=True,
+   params=MAB_FIT, requires=['INV'],
+   raises='*', raises_iff='not ' + VALID_FIT, modifies=[],
+   # C17: the documented invalid arguments are exactly the rejected ones, and nothing is touched
+   ensures=['[C17,valid] ' + VALID_FIT])
+
+# ---------------------------------------------------------------------------------------- prediction
+def mab_pred_result(is_predict):
+    def f(run, env):
+        from pyvc.values import NoneV, OpaqueV
+        from specs.base_mab import pe_result, pred_result
+        from pyvc import libarraylike as AL
+        # the implementor sees the converted contexts: one result for no contexts or a single row, else a list
+        ctx = env.get('contexts')
+        env2 = dict(env)
+        if isinstance(ctx, OpaqueV):
+            from pyvc.values import MatV
+            env2['contexts'] = MatV(AL.as_mat(ctx.term))
+        return (pred_result if is_predict else pe_result)(run, env2)
+    return f
+
+
+PRED_REQ = ['INV', 'slen(self.arms) > 0',
+            # the query has the width the model was trained with (not validated by the library: NumPy would raise inside)
+            'is_none(contexts) or al_is_series(contexts) or (not self.is_contextual) or (not self._is_initial_fit) or '
+            'cols(matrix_of(contexts)) == %s' % NUMF,
+            'is_none(contexts) or al_is_series(contexts) or al_len(contexts) >= 1',
+            'is_none(contexts) or not al_is_series(contexts)',      # Series queries: see __convert_context
+            '(not isinstance(self._imp, _KNearest)) or (not self._is_initial_fit) or self._imp.k <= slen(self._imp.decisions)']
+for _name, _isp in (('predict', True), ('predict_expectations', False)):
+    fn('mab.MAB.' + _name, props='C08 C09 C10 C17 C18', public=True,
+       params={'contexts': 'opt:arraylike:M'},
+       requires=PRED_REQ, raises='*',
+       modifies=['self._rng.rng.state', 'self._imp.**'],
+       # C10 / C17: nothing the bandit has learned changes; what the implementor's own contract says is returned
+       ensures=['INV', '[C17,fitted] old(self._is_initial_fit)',
+                '[C17,contexts] (not self.is_contextual) or not is_none(contexts)'])
+
+fn('mab.MAB.warm_start', props='C13 C17 C18', public=True,
+   params={'arm_to_features': 'map:rseq', 'distance_quantile': 'real'},
+   requires=['INV', 'slen(self.arms) > 0', 'distinct(keys(arm_to_features))'], raises='*',
+   modifies=['self._imp.**'],
+   ensures=['INV', '[C17,quantile] 0 <= distance_quantile and distance_quantile <= 1',
+            '[C17,features] forall_arm(lambda a: mem(self.arms, a) == inkeys(arm_to_features, a))'])
+fn('mab.MAB.cold_arms', props='C13', public=True, pure=True,
+   requires=['INV'], modifies=[],
+   # C13: exactly the arms that are neither observed nor warm-started (none is reported under a neighbourhood policy)
+   ensures=['[C13,cold] forall_arm(lambda a: mem(result, a) == ((not (isinstance(self._imp, _Radius) or '
+            'isinstance(self._imp, _KNearest))) and mem(self.arms, a) and not val(self._imp.arm_to_status, a, "is_trained") '
+            'and not val(self._imp.arm_to_status, a, "is_warm")))'],
+   result='alist')
